@@ -1,5 +1,7 @@
 """Spec functions shared by all properties (sequence helpers, modules list)."""
 import z3
+
+from pyvc import seqs as Q
 from pyvc.dsl import REG, spec_function
 from pyvc.core import S_bool, S_int, Sym, Spec, SeqV, V, IntS, fresh
 from pyvc.values import as_seq, as_int, box
@@ -14,17 +16,17 @@ REG.modules += [
 
 @spec_function()
 def is_prefix(ex, st, p, s):
-    return S_bool(z3.PrefixOf(as_seq(p, st), as_seq(s, st)))
+    return S_bool(Q.PrefixOf(as_seq(p, st), as_seq(s, st)))
 
 
 @spec_function()
 def concat(ex, st, a, b):
-    return Sym("seq", z3.Concat(as_seq(a, st), as_seq(b, st)), a.spec)
+    return Sym("seq", Q.Concat(st, as_seq(a, st), as_seq(b, st)), a.spec)
 
 
 @spec_function()
 def seq_eq(ex, st, a, b):
-    return S_bool(as_seq(a, st) == as_seq(b, st))
+    return S_bool(Q.Eq(as_seq(a, st), as_seq(b, st)))
 
 
 @spec_function()
@@ -35,4 +37,11 @@ def same(ex, st, a, b):
 
 @spec_function()
 def contains(ex, st, s, x):
-    return S_bool(z3.Contains(as_seq(s, st), z3.Unit(box(x, st))))
+    return S_bool(Q.Contains(as_seq(s, st), box(x, st)))
+
+
+@spec_function()
+def all_in(ex, st, a, b):
+    """every member of collection a is a member (key) of collection b"""
+    x = fresh("ax", V)
+    return S_bool(z3.ForAll([x], z3.Implies(Q.Contains(as_seq(a, st), x), Q.Contains(as_seq(b, st), x))))
